@@ -181,7 +181,7 @@ func (c *CFG) Cond(b *cfg.Block) ast.Expr {
 
 // ReachOpt restricts a reachability query.
 type ReachOpt struct {
-	CutLoc  func(Loc) bool               // paths may not pass (execute) these locations
+	CutLoc  func(Loc) bool                 // paths may not pass (execute) these locations
 	CutEdge func(b *cfg.Block, i int) bool // paths may not take these edges
 }
 
